@@ -94,13 +94,18 @@ namespace bloch::compiler {
             size_t j = i + 1;
             while (j < m_tokens.size()) {
                 const TokenType t = m_tokens[j].type;
-                // A type argument list never contains these: the '<' was a comparison, and the
-                // matching-looking '>' further on belongs to another expression or statement.
-                if (t == TokenType::Semicolon || t == TokenType::LBrace || t == TokenType::RBrace ||
-                    t == TokenType::Question || t == TokenType::Colon || t == TokenType::Equals ||
-                    t == TokenType::EqualEqual || t == TokenType::BangEqual ||
-                    t == TokenType::AmpersandAmpersand || t == TokenType::PipePipe ||
-                    t == TokenType::Eof)
+                // A type argument list holds nothing but type names, nested argument lists and
+                // array brackets. Anything else means the '<' was a comparison, and the
+                // matching-looking '>' further on belongs to another expression or statement:
+                // (i < n) & (j > k)
+                const bool typeToken =
+                    t == TokenType::Identifier || t == TokenType::Dot || t == TokenType::Comma ||
+                    t == TokenType::Less || t == TokenType::Greater || t == TokenType::LBracket ||
+                    t == TokenType::RBracket || t == TokenType::IntegerLiteral ||
+                    t == TokenType::Void || t == TokenType::Int || t == TokenType::Float ||
+                    t == TokenType::Long || t == TokenType::Char || t == TokenType::String ||
+                    t == TokenType::Bit || t == TokenType::Qubit || t == TokenType::Boolean;
+                if (!typeToken)
                     return;
                 if (t == TokenType::Less)
                     depth++;
